@@ -829,6 +829,8 @@ func (b *BootGuard) BPMCryptoSecure() (bool, error) {
 		if hash == cbnt.AlgSHA1 || hash.IsNull() {
 			return false, fmt.Errorf("BPM signature uses insecure hash algorithm SHA1/Null")
 		}
+	default:
+		return false, fmt.Errorf("BPMCryptoSecure: can't identify bootguard header")
 	}
 	return true, nil
 }
@@ -855,6 +857,8 @@ func (b *BootGuard) KMCryptoSecure() (bool, error) {
 				return false, fmt.Errorf("the KM hash %s uses insecure hash algorithm SHA1/Null", hash.Usage.String())
 			}
 		}
+	default:
+		return false, fmt.Errorf("KMCryptoSecure: can't identify bootguard header")
 	}
 	return true, nil
 }
@@ -966,6 +970,8 @@ func (b *BootGuard) SaneBPMSecurityProps() (bool, error) {
 		if len(b.VData.CBNTbpm.SE[0].IBBSegments) < 1 {
 			return false, fmt.Errorf("no ibb segments measured")
 		}
+	default:
+		return false, fmt.Errorf("SaneBPMSecurityProps: can't identify bootguard header")
 	}
 	return true, nil
 }
@@ -1012,6 +1018,8 @@ func (b *BootGuard) ValidateMEAgainstManifests(fws *FirmwareStatus6) (bool, erro
 		if fws.KMID != uint32(b.VData.CBNTkm.KMID) {
 			return false, fmt.Errorf("km KMID doesn't match me configuration")
 		}
+	default:
+		return false, fmt.Errorf("ValidateMEAgainstManifests: can't identify bootguard header")
 	}
 	return true, nil
 }
